@@ -205,6 +205,9 @@ def step (d : D) (o : Op) : D × String :=
     (d, s!"=> goat head={toHex d.goat.head.blockHash}|{d.goat.head.blockNumber}|{toHex d.goat.head.parentHash} beacon={toHex d.goat.beaconRoot}")
   | "a.blockstart" => (startBlock d (o.str "halt" == "1"), "=> ok")
   | "a.det" => (d, "=> ok")
+  -- the real application ran one block with and without its failing last transaction and compared the module states
+  -- (C19: failed_tx_changes_nothing is what the model says about it); an observation of the implementation only
+  | "a.failiso" => (d, "=> ok")
   -- the application's own PrepareProposal handler built a proposal from its mempool: it always answers (the proposal
   -- itself follows as an `a.process` operation); nothing is written
   | "a.prepare" =>
